@@ -150,7 +150,7 @@ func mkTime(n int64) time.Time {
 // the epoch, the last representable instant (year 2262) or unset.
 func genTime(unset bool) *rapid.Generator[int64] {
 	return rapid.Custom(func(t *rapid.T) int64 {
-		switch rapid.IntRange(0, 9).Draw(t, "tkind") {
+		switch rapid.IntRange(0, 15).Draw(t, "tkind") {
 		case 0:
 			return rapid.SampledFrom([]int64{0, 1, -1, 999, 1000, 1_000_000_000}).Draw(t, "tepoch")
 		case 1:
